@@ -102,6 +102,9 @@ impl TransportVisitor for V {
         let recv_lens = if self.ring { [1usize, 2, cap as usize] } else { [1usize, 3, cap as usize] };
         let peer_lens = if self.ring { [1u32, 2, cap] } else { [1u32, 3, cap] };
         let mut forced: Option<usize> = None;
+        // The peer has shut the connection down while data was still buffered.
+        let mut shutdown_pending = false;
+        let mut closed = false;
         let mut budget = self.depth;
         for step in 0..self.depth * 2 {
             let op = if let Some(f) = forced.take() {
@@ -112,11 +115,16 @@ impl TransportVisitor for V {
                 }
                 budget -= 1;
                 if self.ring {
-                    [9usize, 10, 11, 4, 5, 6, 7][choose(7, "vsock operation (ring-buffer alphabet)")]
+                    [9usize, 10, 11, 4, 5, 6, 7, 16][choose(8, "vsock operation (ring-buffer alphabet)")]
                 } else {
-                    choose(16, "vsock operation")
+                    choose(17, "vsock operation")
                 }
             };
+            if shutdown_pending && !(4..=6).contains(&op) {
+                // After the peer's shutdown only the buffered data is left to read.
+                tag("skip:after-peer-shutdown");
+                continue;
+            }
             let expect_packets: Vec<(u16, Vec<u8>)>;
             match op {
                 0..=3 => {
@@ -170,7 +178,14 @@ impl TransportVisitor for V {
                         }
                         other => viol("recv-error", format!("recv({}) -> {:?}", n, other)),
                     }
-                    expect_packets = vec![];
+                    if shutdown_pending && ring_used == 0 {
+                        // Drained after the peer's shutdown: the connection is closed with a reset
+                        // that carries the final forwarded-byte count like every other packet.
+                        expect_packets = vec![(OP_RST, vec![])];
+                        closed = true;
+                    } else {
+                        expect_packets = vec![];
+                    }
                 }
                 7 => {
                     let r = crate::util::catch(|| cm.update_credit(PEER, LPORT));
@@ -260,6 +275,30 @@ impl TransportVisitor for V {
                     tlog!("step {}: peer credit update buf_alloc {} fwd_cnt {}", step, p_buf_alloc, p_fwd);
                     expect_packets = vec![];
                 }
+                16 => {
+                    // The peer shuts the connection down (both directions); polled at once.
+                    if dev.posted() == 0 || !inbox.is_empty() {
+                        continue;
+                    }
+                    let mut h = peer_hdr(OP_SHUTDOWN, 0, p_buf_alloc, p_fwd);
+                    h.flags = 3;
+                    dev.deliver(0, &h, &[]);
+                    let r = crate::util::catch(|| cm.poll());
+                    tag("peer:shutdown");
+                    tlog!("step {}: peer SHUTDOWN with {} bytes buffered -> {:?}", step, ring_used, r);
+                    k_buf_alloc = h.buf_alloc;
+                    k_fwd = h.fwd_cnt;
+                    if !matches!(&r, Ok(Ok(Some(ev))) if matches!(ev.event_type, VsockEventType::Disconnected { .. })) {
+                        viol("poll-event", format!("poll of SHUTDOWN -> {:?}", r));
+                    }
+                    if ring_used == 0 {
+                        expect_packets = vec![(OP_RST, vec![])];
+                        closed = true;
+                    } else {
+                        shutdown_pending = true;
+                        expect_packets = vec![];
+                    }
+                }
                 _ => {
                     if dev.posted() == 0 {
                         continue;
@@ -318,6 +357,13 @@ impl TransportVisitor for V {
             }
             for e in dev.co.borrow_mut().errors.drain(..) {
                 viol("chain-malformed", e);
+            }
+            if closed {
+                if cm.recv_buffer_available_bytes(PEER, LPORT).is_ok() {
+                    viol("connection-not-closed", "the connection still exists after the reset that completes the peer's shutdown".into());
+                }
+                tag("closed-after-peer-shutdown");
+                break;
             }
             let rb = cm.recv_buffer_available_bytes(PEER, LPORT);
             if rb != Ok(ring_used as usize) {
